@@ -37,8 +37,11 @@ def f32(x):
 class Bucket:
     """One stored bucket: model layout + its concrete rendering."""
 
-    def __init__(self, rng, kind, sym):
+    def __init__(self, rng, kind, sym, passengers=False):
         self.kind, self.key = kind, "%s/1Min/G" % sym
+        # passenger columns (C19): one column of every numeric element type that no predicate mentions; SELECT * must return them
+        # with the stored row's values whatever the filter kept
+        self.passengers = [("X" + t, t) for t in ("i1", "i2", "i4", "i8", "u1", "u2", "u4", "u8", "f4", "f8")] if passengers else []
         lay = LAYOUT[kind]
         self.pos = lay["rows"]
         n = len(self.pos)
@@ -89,6 +92,8 @@ class Bucket:
         for c in "ABC":
             vals = [json.loads(self.on[c][l]) for l in self.lv[c]]
             cols.append({"name": REAL_NAME[c], "type": self.types[c], "vals": vals})
+        for j, (nm, t) in enumerate(self.passengers):
+            cols.append({"name": nm, "type": t, "vals": [(7 * k + 3 * j + 1) % 120 for k in range(len(ts))]})
         if self.kind == "variable":
             cols.append({"name": "Nanoseconds", "type": "i4", "vals": [t % 10 ** 9 for t in ts]})
         return cols
@@ -98,7 +103,7 @@ class Bucket:
         if isinstance(rows, str):
             raise Undecided("baseline query of %s failed: %s" % (self.key, rows))
         names, recs = rows
-        want = ["Epoch", "Bid", "Qty", "Cnt"] + (["Nanoseconds"] if self.kind == "variable" else [])
+        want = ["Epoch", "Bid", "Qty", "Cnt"] + [nm for nm, _ in self.passengers] + (["Nanoseconds"] if self.kind == "variable" else [])
         if names != want or len(recs) != len(self.pos):
             raise Undecided("baseline of %s is not what was written: %s %s" % (self.key, names, recs))
         res_ns = TFSEC * 10 ** 9 // 2 ** 32 + 2
@@ -112,6 +117,9 @@ class Bucket:
                 v = f32(v) if self.types[c] == "f4" else v
                 if r[REAL_NAME[c]] != v:
                     raise Undecided("baseline value of row %d.%s of %s: wrote %r read %r" % (k, c, self.key, v, r[REAL_NAME[c]]))
+            for j, (nm, t) in enumerate(self.passengers):
+                if r[nm] != (7 * k + 3 * j + 1) % 120:
+                    raise Undecided("baseline value of row %d.%s of %s: wrote %r read %r" % (k, nm, self.key, (7 * k + 3 * j + 1) % 120, r[nm]))
         self.stored = recs
         self.cols = names
 
@@ -160,7 +168,7 @@ class Bucket:
 
     def describe(self):
         return {"key": self.key, "kind": self.kind, "positions": self.pos, "levels": self.lv, "types": self.types,
-                "base_epoch": self.base, "offsets_ns": self.off_ns, "stored": self.stored}
+                "base_epoch": self.base, "offsets_ns": self.off_ns, "stored": self.stored, "passengers": self.passengers}
 
 
 def zero_column_response(obs):
@@ -206,6 +214,9 @@ def expected_table(b, ans, star):
     cols = [(c["n"], c["s"]) for c in ans["cols"]]
     for n, s in cols:
         out[REAL_NAME.get(n, n)] = [b.stored[k - 1][REAL_NAME[s]] for k in ans["rows"]]
+    if star:
+        for nm, _ in getattr(b, "passengers", []):
+            out[nm] = [b.stored[k - 1][nm] for k in ans["rows"]]
     if star and b.kind == "variable":
         out["Nanoseconds"] = [b.stored[k - 1]["Nanoseconds"] for k in ans["rows"]]
     return out
@@ -272,7 +283,7 @@ def run(prop, tier):
     binary = vlib.build_harness()
     known = {k["deviation"]: k for k in vlib.known_findings(prop)}
     root = os.path.join(vlib.scratch(), "root_%s" % prop)
-    buckets = [Bucket(rng, "fixed", "FX"), Bucket(rng, "variable", "VR")]
+    buckets = [Bucket(rng, "fixed", "FX", passengers=(prop == "C19")), Bucket(rng, "variable", "VR", passengers=(prop == "C19"))]
     setup = []
     for b in buckets:
         setup.append({"op": "write", "var": b.kind == "variable", "buckets": [{"key": b.key, "cols": b.write_cols()}]})
@@ -507,6 +518,7 @@ def judge_insert(b, o, c, tgt, counts):
 class _ReplayBucket(Bucket):
     def __init__(self, d):
         self.kind, self.key, self.types, self.stored = d["kind"], d["key"], d["types"], d["stored"]
+        self.passengers = [tuple(x) for x in d.get("passengers", [])]
 
 
 def replay(rp):
